@@ -1543,11 +1543,32 @@ func MakeHostile(p *Program, r *core.Rand) []string {
 	var log []string
 	pick := func() string { return HostileNames[r.Intn(len(HostileNames))] }
 	sameNamed(p, r, &log)
+	hostileFiles(p, r, &log)
+	dupLiterals(p, r, &log)
 	twinned := map[string]int{}
+	referenced := map[*Constant]bool{}
+	var refs func(c *Const)
+	refs = func(c *Const) {
+		if c == nil {
+			return
+		}
+		if c.RefConst != nil {
+			referenced[c.RefConst] = true
+		}
+		for _, it := range c.Items {
+			refs(it)
+		}
+	}
 	for _, f := range p.Files {
 		for _, d := range f.Defs {
-			if _, ok := d.(*Struct); ok {
+			switch d := d.(type) {
+			case *Struct:
 				twinned[d.DefName()]++
+				for _, fl := range d.Fields {
+					refs(fl.Default)
+				}
+			case *Constant:
+				refs(d.Value)
 			}
 		}
 	}
@@ -1564,12 +1585,14 @@ func MakeHostile(p *Program, r *core.Rand) []string {
 			}
 		}
 		for _, d := range f.Defs {
-			_, isConst := d.(*Constant)
-			if !r.Chance(1, 3) && !(isConst && r.Chance(1, 3)) {
+			kd, isConst := d.(*Constant)
+			// a referenced constant of a primitive type is emitted by name at the reference
+			hot := isConst && referenced[kd] && kd.Type != nil && kd.Type.Root().Kind == TBase
+			if !r.Chance(1, 3) && !(isConst && r.Chance(1, 3)) && !(hot && r.Chance(2, 3)) {
 				continue
 			}
 			n := pick()
-			if isConst && r.Chance(2, 3) {
+			if isConst && (hot || r.Chance(2, 3)) {
 				n = capsWords[r.Intn(len(capsWords))]
 			} else if r.Chance(1, 4) {
 				n = relativeDefName(f, r)
@@ -1815,5 +1838,87 @@ func sameNamed(p *Program, r *core.Rand, log *[]string) {
 		}
 		z.Defs = append(z.Defs, h)
 		*log = append(*log, fmt.Sprintf("%s: %d types named %s used as list elements", z.Path, len(elems), sameName))
+	}
+}
+
+// hostileFiles renames files to base names that are fine for Thrift but are
+// Go keywords, "main", or not identifiers (root file only: nobody can name it).
+func hostileFiles(p *Program, r *core.Rand, log *[]string) {
+	names := []string{"range", "func", "type", "select", "go", "chan", "var", "defer", "main", "init", "fallthrough", "goto"}
+	for k, f := range p.Files {
+		if !r.Chance(1, 10) {
+			continue
+		}
+		n := names[r.Intn(len(names))]
+		if k == 0 && r.Bool() {
+			n = []string{"9lives", "2fa", "_"}[r.Intn(3)]
+		}
+		if IsReserved(n) {
+			continue
+		}
+		np := path.Dir(f.Path) + "/" + n + ".thrift"
+		clash := false
+		for _, o := range p.Files {
+			if o.Path == np {
+				clash = true
+			}
+			// an includer of f must not already include another file of that name
+			incl, other := false, false
+			for _, h := range o.Headers {
+				if h.Target == f {
+					incl = true
+				} else if h.Target != nil && h.Target.ModuleName() == n {
+					other = true
+				}
+			}
+			if incl && other {
+				clash = true
+			}
+			for _, d := range o.Defs {
+				if incl && d.DefName() == n {
+					clash = true
+				}
+			}
+		}
+		if clash {
+			continue
+		}
+		*log = append(*log, fmt.Sprintf("%s -> %s", f.Path, np))
+		f.Path = np
+	}
+}
+
+// dupLiterals repeats an item of a set literal or a key of a map literal.
+func dupLiterals(p *Program, r *core.Rand, log *[]string) {
+	var visit func(c *Const, t *TypeRef) bool
+	visit = func(c *Const, t *TypeRef) bool {
+		if c == nil || t == nil {
+			return false
+		}
+		rt := t.Root()
+		switch {
+		case rt.Kind == TSet && c.Kind == CList && len(c.Items) > 0 && rt.Elem.Root().Kind == TBase && r.Chance(1, 2):
+			c.Items = append(c.Items, c.Items[r.Intn(len(c.Items))])
+			return true
+		case rt.Kind == TMap && c.Kind == CMap && len(c.Items) >= 2 && rt.Key.Root().Kind == TBase && r.Chance(1, 2):
+			k := 2 * r.Intn(len(c.Items)/2)
+			c.Items = append(c.Items, c.Items[k], c.Items[k+1])
+			c.ItemPos = append(c.ItemPos, Pos{})
+			return true
+		case (rt.Kind == TList || rt.Kind == TSet) && c.Kind == CList:
+			for _, it := range c.Items {
+				if visit(it, rt.Elem) {
+					return true
+				}
+			}
+		}
+		return false
+	}
+	for _, f := range p.Files {
+		for _, d := range f.Defs {
+			if k, ok := d.(*Constant); ok && r.Chance(1, 6) && visit(k.Value, k.Type) {
+				*log = append(*log, fmt.Sprintf("%s: constant %s repeats a set item / map key", f.Path, k.Name))
+			}
+		}
 	}
 }
